@@ -4,7 +4,7 @@
 (*         (reset line: cfgs)                                                 *)
 (* events: build {inst, panic}                                                *)
 (*         req {inst, method, urlpath, noescape, next_called, same_method,          *)
-(*              same_url, same_header, same_body, status, ctype, sha, ran,    *)
+(*              same_url, same_header, same_body, entered, next_hdr, next_mode, status, ctype, sha, ran,    *)
 (*              panic, slots [{name, occ}], specref}                          *)
 EXTENDS DocsMW, Json, IOUtils
 
@@ -35,6 +35,14 @@ SpecRefOK(cfg, e) ==
         IN IF ctx = "url" THEN got = PctUnescape(want)      \* a URL attribute may spell bytes percent-encoded: same location
            ELSE got = want
 
+(* the instrumented next answers in one of three ways (next_mode); what the client gets is exactly that answer:  *)
+(* 0: 299 with its own Content-Type; 1: a plain Write without Content-Type (the type is sniffed from the body);     *)
+(* 2: 204 No Content without Content-Type                                                                           *)
+NextAnswerIntact(e) ==
+  CASE e.next_mode = 0 -> e.status = 299 /\ e.ctype = "text/x-next"
+    [] e.next_mode = 1 -> e.status = 200 /\ e.ctype = "text/plain; charset=utf-8"
+    [] e.next_mode = 2 -> e.status = 204 /\ e.ctype = ""
+
 OpAt(cfg, e) ==
   {i \in DOMAIN cfg.ops : e.method = "GET" /\ e.noescape /\ PathClean(e.urlpath) = OpPath(cfg, i)}
 
@@ -55,13 +63,15 @@ ReqWhy(cfg, e) ==
          [] who = "next" ->
               IF ~e.next_called THEN "other-path-intercepted"
               ELSE IF ~(e.same_method /\ e.same_url /\ e.same_header /\ e.same_body) THEN "request-modified"
-              ELSE IF e.status # 299 THEN "next-answer-altered"
+              ELSE IF e.next_hdr # <<>> THEN "response-headers-preset-for-next"
+              ELSE IF ~NextAnswerIntact(e) THEN "next-answer-altered"
               ELSE "ok"
          [] who = "404" ->
               IF e.status # 404 THEN "404-expected" ELSE "ok"
          [] who = "routes" ->
               IF e.ctype = HTMLType \/ (e.status = 200 /\ e.sha = cfg.specsha) THEN "other-path-intercepted"
               ELSE IF \E i \in OpAt(cfg, e) : e.ran # i THEN "operation-not-reachable"
+              ELSE IF e.entered /\ e.next_hdr # <<>> THEN "response-headers-preset-for-next"
               ELSE "ok"
 
 RAllowed(s, e) ==
